@@ -203,6 +203,39 @@ Proof.
   unfold raw_read. rewrite Hs. destruct (r_stk r'); reflexivity.
 Qed.
 
+(* acceptance is prefix closed, and the statement above holds at every instant of an accepted history:
+   after every prefix the channel holds the regions that prefix leaves open and shows the innermost one *)
+Lemma chan_run_app sp r p q :
+  chan_run sp r (p ++ q) =
+  match chan_run sp r p with Some rp => chan_run sp rp q | None => None end.
+Proof.
+  revert r. induction p as [|e p IH]; intros r; cbn [app chan_run]; [reflexivity|].
+  destruct (sev_apply sp r e) as [[r1 d]|err]; [apply IH|reflexivity].
+Qed.
+
+Theorem stack_channel_prefix_closed sp p q r' :
+  chan_run sp (empty_stack_chan sp) (p ++ q) = Some r' ->
+  exists rp, chan_run sp (empty_stack_chan sp) p = Some rp /\ chan_run sp rp q = Some r'.
+Proof.
+  rewrite chan_run_app. destruct (chan_run sp (empty_stack_chan sp) p) as [rp|]; [|discriminate].
+  intros H. exists rp. split; [reflexivity|exact H].
+Qed.
+
+Theorem stack_channel_every_instant sp p q r' :
+  cs_stack sp = true ->
+  chan_run sp (empty_stack_chan sp) (p ++ q) = Some r' ->
+  exists rp, chan_run sp (empty_stack_chan sp) p = Some rp /\
+             hist p (r_stk rp) /\ raw_read sp rp = hd_error (r_stk rp).
+Proof.
+  intros Hs H. destruct (stack_channel_prefix_closed sp p q r' H) as (rp & Hp & _).
+  exists rp. split; [exact Hp|]. apply stack_channel_top; assumption.
+Qed.
+
+(* once a history is refused no continuation is accepted *)
+Theorem stack_channel_refusal_is_final sp p q :
+  chan_run sp (empty_stack_chan sp) p = None -> chan_run sp (empty_stack_chan sp) (p ++ q) = None.
+Proof. intros H. rewrite chan_run_app, H. reflexivity. Qed.
+
 (* ---------------------------------------------------------------- inside the emulator core *)
 From OV Require Import Proofs.EmuCoreProofs.
 
